@@ -52,13 +52,15 @@ ParsesJsonl(s) == Parses(s) \/ s = "empty"
 AcceptFull == IF AsImplemented THEN st["full"] \in {"synced", "stale"} ELSE Complete(st["full"])
 TailConsistent == \/ (st["mr"] \in {"synced", "partial"} /\ st["mrord"] \in {"synced", "partial"})
                   \/ (st["mr"] = "stale" /\ st["mrord"] = "stale")
-\* a messages+runs sidecar that is missing or does not parse is rebuilt from the full sidecar when that one is accepted
-\* (rebuild_messages_runs_from_full_sidecar_best_effort_v1); the ordinal index next to it is left as it is
-MrRebuilt == AsImplemented /\ ~ParsesJsonl(st["mr"]) /\ st["full"] # "absent" /\ AcceptFull
+\* whenever the (messages+runs sidecar, ordinal index) pair cannot be accepted as it is - a file missing, empty or unreadable,
+\* or the two inconsistent with each other - the messages+runs sidecar is rebuilt from the full sidecar when that one is
+\* accepted (rebuild_messages_runs_from_full_sidecar_best_effort_v1); the ordinal index next to it is left as it is
+TailConsistentOf(mr) == \/ (mr \in {"synced", "partial"} /\ st["mrord"] \in {"synced", "partial"})
+                        \/ (mr = "stale" /\ st["mrord"] = "stale")
+AcceptAsIs == Parses(st["mr"]) /\ Parses(st["mrord"]) /\ TailConsistentOf(st["mr"])
+MrRebuilt == AsImplemented /\ ~AcceptAsIs /\ st["full"] # "absent" /\ AcceptFull
 EffMr == IF MrRebuilt THEN "synced" ELSE st["mr"]
-TailConsistentEff == \/ (EffMr \in {"synced", "partial"} /\ st["mrord"] \in {"synced", "partial"})
-                     \/ (EffMr = "stale" /\ st["mrord"] = "stale")
-AcceptCount == IF AsImplemented THEN Parses(EffMr) /\ Parses(st["mrord"]) /\ TailConsistentEff
+AcceptCount == IF AsImplemented THEN Parses(EffMr) /\ Parses(st["mrord"]) /\ TailConsistentOf(EffMr)
                ELSE Complete(st["mr"]) /\ Complete(st["mrord"])
 \* an absent derived sidecar is rebuilt from the full sidecar when that one exists (ensure_... functions): trusted as the full one is
 DerivedOK(f) == IF st[f] = "absent" THEN (st["full"] # "absent" /\ AcceptFull) ELSE
